@@ -61,6 +61,7 @@ class Case:
     want_words: List[Tuple[int, int, int]] = field(default_factory=list)  # (word, mask, value)
     trace: Tuple[str, ...] = ()  # documented order of marker visits
     output: bytes = b''
+    soft_frame: bool = False  # tolerate changes inside the code of the macro instance itself (words of [again, done))
     info: Dict[str, Any] = field(default_factory=dict)  # readable description of the operands (witness)
 
 
@@ -81,6 +82,7 @@ class Program:
     max_ops: int = 2_000_000
     group: str = 'pointer macros'
     variant: str = ''  # distinguishes several applications of one macro
+    candidate: str = ''  # non-empty: a known disagreement between documentation and behaviour that is REPORTED (evidence: candidate_findings), not counted
 
 
 def _t(x: WText, w: int) -> str:
@@ -142,6 +144,11 @@ class PtrHarness(Harness):
         self.scratch = self._scratch()
 
     # ---- addresses
+    def _label(self, nm: str) -> int:
+        if nm in self.labels:  # a top-level label wins over a macro-local label of the same name
+            return self.labels[nm]
+        return super()._label(nm)
+
     def A(self, nm: str) -> int:
         """bit address of 'label' or 'label+k' (k ops after the label)"""
         k = 0
@@ -269,7 +276,7 @@ class PtrHarness(Harness):
                 ok = allowed.get(a, 0) | vw.get(a, 0) | self.scratch.get(a, 0) | (1 if a == 0 else 0)
                 if a == 2 and cs.output:
                     ok |= 3  # writing a bit IS flipping bit 0 / 1 of the IO word (2w, 2w+1)
-                if (old ^ new) & ~ok:
+                if (old ^ new) & ~ok and not (cs.soft_frame and self.addr['again'] // w <= a < self.addr['done'] // w):
                     broken.append(a)
         if broken:
             broken.sort()
@@ -287,7 +294,7 @@ class PtrHarness(Harness):
 
 
 def check_program(p: Program, w: int, tier: str, seed: int) -> Tuple[int, int, List[Violation]]:
-    rng = random.Random(hash((p.name, p.variant, w, seed)) & 0xFFFFFFFF)
+    rng = random.Random(f'{p.name}|{p.variant}|{w}|{seed}')  # (str seeds do not depend on PYTHONHASHSEED)
     evals = 0
     distinct = set()
     tag = p.name + (f'[{p.variant}]' if p.variant else '')
@@ -348,7 +355,10 @@ def run_programs(rep: Report, programs: List[Program], tier: str, seed: int, pro
         ws.setdefault(p.group, set()).add(w)
         names.setdefault(p.group, set()).add(p.name)
         for v in viols:
-            rep.violation(v)
+            if p.candidate and not v.obligation.endswith('.harness'):
+                rep.extra.setdefault('candidate_findings', []).append(dict(program=p.name, variant=p.variant, w=w, note=p.candidate, observed=v.what))
+            else:
+                rep.violation(v)
     for g, (ev, di, n) in per_group.items():
         rep.add_bounded(f'{prop}: {g}', f'{n} assembled programs ({len(names[g])} macros / families), widths {sorted(ws[g])}; every execution re-uses the assembled instance in the state the previous one left; see the module doc of bounded/stl_ptr.py and contracts/fj/pointers.py for the operand domains', ev, di)
     rep.extra['macros_under_contract'] = sorted({p.name for p in programs})
